@@ -18,8 +18,14 @@ use utils::arena::arena_ref::Ar;
 use utils::id_set::IdSet;
 
 /// A sanitizer that can continue after an error (AddressSanitizer in recover mode, see harness/utilsmiri)
-/// reports through this probe: Some(report) once since the last call if an error was reported.
-pub type UbProbe = fn() -> Option<String>;
+/// reports through this probe.
+#[derive(Clone, Copy)]
+pub struct UbProbe {
+    /// the report, once, if an error was reported since the last call
+    pub take: fn() -> Option<String>,
+    /// is a report waiting to be taken? (cheap; lets a projection stop early instead of producing dozens of reports)
+    pub pending: fn() -> bool,
+}
 
 #[allow(dead_code)]
 pub fn main(args: &[String]) {
@@ -27,6 +33,19 @@ pub fn main(args: &[String]) {
 }
 
 pub fn main_with(args: &[String], probe: Option<UbProbe>) {
+    // not on the main thread: every caught panic makes AddressSanitizer look up the stack bounds, which for the main
+    // thread means parsing /proc/self/maps each time
+    let args: Vec<String> = args.to_vec();
+    let h = std::thread::Builder::new()
+        .stack_size(512 << 10)
+        .spawn(move || replay_all(&args, probe))
+        .expect("spawn replay thread");
+    if h.join().is_err() {
+        std::process::exit(101);
+    }
+}
+
+fn replay_all(args: &[String], probe: Option<UbProbe>) {
     let args: Vec<&String> = args.iter().filter(|a| a.as_str() != "utils").collect();
     if args.len() < 2 {
         eprintln!("usage: utils <cases.ndjson> <obs.ndjson> [--from N] [--count M]");
@@ -97,9 +116,13 @@ struct Out<'a> {
 }
 
 impl Out<'_> {
+    fn ub_pending(&self) -> bool {
+        self.probe.map(|p| (p.pending)()).unwrap_or(false)
+    }
+
     /// did the sanitizer report an error since the last call? then say so (the caller abandons the case)
     fn ub_seen(&mut self, k: usize, phase: &str) -> bool {
-        match self.probe.and_then(|p| p()) {
+        match self.probe.and_then(|p| (p.take)()) {
             Some(report) if k > 0 => {
                 self.line(json!({"k": k, "ub": report, "phase": phase}));
                 true
@@ -175,7 +198,7 @@ fn caught<R>(f: impl FnOnce() -> R) -> Result<R, ()> {
 }
 
 /// everything the safe read-only API tells about one instance
-fn project<T: Val>(set: &mut IdSet<T>, probe: &[String]) -> J {
+fn project<T: Val>(set: &mut IdSet<T>, probe: &[String], stop: &dyn Fn() -> bool) -> J {
     let mut m = Map::new();
     m.insert("len".into(), json!(set.len()));
     m.insert("empty".into(), json!(set.is_empty()));
@@ -194,6 +217,9 @@ fn project<T: Val>(set: &mut IdSet<T>, probe: &[String]) -> J {
     let mut has = Map::new();
     let mut getid = Map::new();
     for (i, p) in probe.iter().enumerate() {
+        if stop() {
+            return J::Null; // a sanitizer report is pending: the caller discards the projection
+        }
         let v = T::mk(p);
         ids.insert(
             p.clone(),
@@ -218,6 +244,9 @@ fn project<T: Val>(set: &mut IdSet<T>, probe: &[String]) -> J {
             },
         );
     }
+    if stop() {
+        return J::Null;
+    }
     // in probe order
     let inorder = |m: &Map<String, J>| J::Array(probe.iter().map(|p| m[p].clone()).collect());
     m.insert("ids".into(), inorder(&ids));
@@ -228,6 +257,9 @@ fn project<T: Val>(set: &mut IdSet<T>, probe: &[String]) -> J {
     let mut at = vec![];
     let mut atm = vec![];
     for id in 0..n {
+        if stop() {
+            return J::Null;
+        }
         at.push(match caught(|| set[id].show()) {
             Ok(s) => J::String(s),
             Err(()) => json!({"panic": true}),
@@ -306,8 +338,10 @@ fn idset<T: Val>(case: &J, o: &mut Out) {
                 proj.push(match sl {
                     None => json!({"live": false}),
                     Some(set) => {
-                        let mut p = project(set, &probe);
-                        p.as_object_mut().unwrap().insert("live".into(), json!(true));
+                        let mut p = project(set, &probe, &|| o.ub_pending());
+                        if let Some(m) = p.as_object_mut() {
+                            m.insert("live".into(), json!(true));
+                        }
                         p
                     }
                 });
